@@ -46,7 +46,7 @@ type Rng struct{ *rand.Rand }
 func NewRng(seed int64) *Rng { return &Rng{rand.New(rand.NewSource(seed))} }
 
 func (r *Rng) Pick(l []string) string { return l[r.Intn(len(l))] }
-func (r *Rng) Chance(p float64) bool   { return r.Float64() < p }
-func (r *Rng) Sub(seed int) *Rng       { return NewRng(r.Int63() ^ int64(seed)) }
+func (r *Rng) Chance(p float64) bool  { return r.Float64() < p }
+func (r *Rng) Sub(seed int) *Rng      { return NewRng(r.Int63() ^ int64(seed)) }
 
 func Itoa(i int) string { return strconv.Itoa(i) }
